@@ -314,7 +314,7 @@ const c15Rule = "battles as in C02 (1..3 warriors, offsets up to 3M, cores <= 64
 
 func TestC15(t *testing.T) {
 	hx.Run(t, hx.Prop[battleCase]{
-		ID: "C15", Sub: "reports", Rule: c15Rule, Checks: hx.Scale(30000, 1500000),
+		ID: "C15", Sub: "reports", Rule: c15Rule, Checks: hx.Scale(30000, 12000000),
 		Gen: genReportBattle, Judge: judgeReports,
 	})
 }
